@@ -25,6 +25,8 @@ def menu():
             acts.append(["c", j, sub])
         acts.append(["x", j, [["raise"]]])
         acts.append(["x", j, [["c", 3, [["raise"]]]]])
+    acts.append(["x", 1, [["c", 3, []], ["raise_nm"]]])   # the sub-call ends un-memoized after calling something itself
+    acts.append(["b", 2, [[["c", 3, [["r", "u3"]]], ["raise_nm"]], []]])
     acts.append(["cc", 1, [["c", 3, []]]])
     acts.append(["b", 1, [[], [["c", 3, []]], []]])
     acts.append(["b", 2, [[["raise"]], [], [["r", "u1"]]]])
@@ -37,7 +39,7 @@ def model(i, plan, table):
     k = (i, json.dumps(plan))
     if k in table:
         return table[k]["deps"], table[k]["raises"]
-    rec = {"node": i, "plan": plan, "invocations": [], "resources": [], "deps": {i}, "raises": False}
+    rec = {"node": i, "plan": plan, "invocations": [], "resources": [], "deps": {i}, "raises": False, "transient": False}
     table[k] = rec
     for act in plan:
         t = act[0]
@@ -50,6 +52,7 @@ def model(i, plan, table):
                 rec["deps"] |= d
                 if r and t != "x":
                     rec["raises"] = True
+                    rec["transient"] = table[(act[1], json.dumps(act[2]))]["transient"]  # propagates through an uncaught call
                     stop = True
                     break
             if stop:
@@ -63,6 +66,10 @@ def model(i, plan, table):
             rec["resources"].append(act[1])
         elif t == "raise":
             rec["raises"] = True
+            break
+        elif t == "raise_nm":
+            rec["raises"] = True
+            rec["transient"] = True
             break
     return rec["deps"], rec["raises"]
 
@@ -100,7 +107,10 @@ def case(args):
             out["transitions"] += 1
             mm = nodes[i].memento(rec["plan"])
             bad = None
-            if mm is None:
+            if rec["transient"]:
+                if mm is not None:
+                    bad = ("recorded-not-to-be-memoized", "n%d(%s) ended with a not-to-be-memoized exception but has a memento" % (i, rec["plan"]))
+            elif mm is None:
                 bad = ("no-memento", "no memento recorded for n%d(%s)" % (i, rec["plan"]))
             else:
                 im = mm.invocation_metadata
